@@ -128,7 +128,38 @@ func (p *Program) AnchorsOf() map[string]string {
 	for k, v := range fs {
 		out[k] = v
 	}
+	// named types that are not structs ( type bucket []byte ): "%type|rel|T" -> underlying type
+	for _, pk := range p.Pkgs {
+		if !IsLibraryPkg(pk.PkgPath) {
+			continue
+		}
+		rel := strings.TrimPrefix(strings.TrimPrefix(pk.PkgPath, ModulePath), "/")
+		sc := pk.Types.Scope()
+		for _, n := range sc.Names() {
+			tn, ok := sc.Lookup(n).(*types.TypeName)
+			if !ok || tn.IsAlias() || strings.HasSuffix(p.Fset.Position(tn.Pos()).Filename, "_test.go") {
+				continue
+			}
+			switch tn.Type().Underlying().(type) {
+			case *types.Struct, *types.Interface:
+				continue
+			}
+			out["%type|"+rel+"|"+n] = types.TypeString(tn.Type().Underlying(), nil)
+		}
+	}
 	return out
+}
+
+// splitRef separates the "%type|…" entries (named non-struct types) from the function and field entries of the reference.
+func splitRef(ref map[string]string) map[string]string {
+	named := map[string]string{}
+	for k, v := range ref {
+		if strings.HasPrefix(k, "%type|") {
+			named[strings.TrimPrefix(k, "%type|")] = v
+			delete(ref, k)
+		}
+	}
+	return named
 }
 
 func (p *Program) renames() *renameInfo {
@@ -141,6 +172,7 @@ func (p *Program) renames() *renameInfo {
 	if json.Unmarshal(anchorsRefJSON, &ref) != nil || len(ref) == 0 {
 		return ri
 	}
+	splitRef(ref)
 	ri.ref = ref
 	cur := map[string]*ssa.Function{}
 	curSig := map[string]string{}
@@ -489,6 +521,59 @@ func (p *Program) typeRenames() map[*types.TypeName]string {
 	ref := map[string]string{}
 	if json.Unmarshal(anchorsRefJSON, &ref) != nil {
 		return p.typeRen
+	}
+	refNamed := splitRef(ref)
+	// named non-struct types: a reference type that is gone is the one new named type of the package with the same underlying type
+	for _, pk := range p.Pkgs {
+		if !IsLibraryPkg(pk.PkgPath) {
+			continue
+		}
+		rel := strings.TrimPrefix(strings.TrimPrefix(pk.PkgPath, ModulePath), "/")
+		sc := pk.Types.Scope()
+		var missing []string
+		for k := range refNamed {
+			if strings.HasPrefix(k, rel+"|") && sc.Lookup(k[len(rel)+1:]) == nil {
+				missing = append(missing, k)
+			}
+		}
+		if len(missing) == 0 {
+			continue
+		}
+		sort.Strings(missing)
+		var extra []*types.TypeName
+		for _, n := range sc.Names() {
+			tn, ok := sc.Lookup(n).(*types.TypeName)
+			if !ok || tn.IsAlias() || strings.HasSuffix(p.Fset.Position(tn.Pos()).Filename, "_test.go") {
+				continue
+			}
+			switch tn.Type().Underlying().(type) {
+			case *types.Struct, *types.Interface:
+				continue
+			}
+			if _, known := refNamed[rel+"|"+n]; !known {
+				extra = append(extra, tn)
+			}
+		}
+		for _, m := range missing {
+			var cands []*types.TypeName
+			for _, e := range extra {
+				if types.TypeString(e.Type().Underlying(), nil) == refNamed[m] {
+					cands = append(cands, e)
+				}
+			}
+			if len(cands) != 1 {
+				continue
+			}
+			n := 0
+			for _, m2 := range missing {
+				if refNamed[m2] == refNamed[m] {
+					n++
+				}
+			}
+			if n == 1 {
+				p.typeRen[cands[0]] = m[len(rel)+1:]
+			}
+		}
 	}
 	// reference structs: rel|T -> index -> type string
 	refStructs := map[string]map[int]string{}
